@@ -502,7 +502,9 @@ Definition release_if_idle (nw : Z) (w : fw) (d : Z) : fw :=
 
 Definition shutdown (nw : Z) (is_failure : bool) (lost : Z) (w : fw) (d : Z) : fw :=
   let x := getd w d in
-  if d_shut x then w
+  if d_shut x then
+    (* failed while already shut down: cancel the interrupted cycle, report the lost part *)
+    if is_failure then run_cbops nw d true is_failure lost (d_on_shutdown x) (emitf w (FCancel d)) else w
   else
     let w1 := emitf (updd w d (fun y => y <| d_shut := true |>)) (if is_failure then FCancel d else FPause d) in
     let w2 := updd w1 d (fun y =>
